@@ -123,6 +123,9 @@ def ensure_makefile() -> None:
     want = "\n".join(srcs)
     if mk.exists() and stamp.exists() and stamp.read_text() == want:
         return
+    dep = COQ / ".Makefile.d"
+    if dep.exists():
+        dep.unlink()
     subprocess.run(["coq_makefile", "-f", "_CoqProject", *srcs, "-o", "Makefile"], cwd=COQ, check=True,
                    stdout=subprocess.DEVNULL)
     stamp.write_text(want)
